@@ -7,6 +7,7 @@ import (
 	"net"
 	"strings"
 	"sync"
+	"sync/atomic"
 	"time"
 
 	"github.com/gocql/gocql"
@@ -73,6 +74,26 @@ func runLife(e *Env) {
 		cfg.RetryPolicy = &gocql.SimpleRetryPolicy{NumRetries: 2}
 	}
 	e.Note("retryPolicy", withRetry)
+	// authentication: none, a fixed authenticator, or a per-host provider (a user callback
+	// that may fail, e.g. a credentials service that is briefly unavailable)
+	var authFailNext int32
+	authMode := tp.Weighted([]int{6, 1, 2})
+	if authMode > 0 {
+		cl.AuthClass = "org.apache.cassandra.auth.PasswordAuthenticator"
+		if authMode == 1 {
+			cfg.Authenticator = gocql.PasswordAuthenticator{Username: "u", Password: "p"}
+		} else {
+			cfg.AuthProvider = func(h *gocql.HostInfo) (gocql.Authenticator, error) {
+				if atomic.AddInt32(&authFailNext, -1) >= 0 {
+					k.Fault("auth-provider.fails")
+					return nil, errors.New("life: credentials service unavailable")
+				}
+				atomic.StoreInt32(&authFailNext, 0)
+				return gocql.PasswordAuthenticator{Username: "u", Password: "p"}, nil
+			}
+		}
+	}
+	e.Note("authMode", authMode)
 	received := map[string]int{}
 
 	valMeta := &cqlspec.RowsMeta{GlobalSpec: true, Columns: []cqlspec.ColSpec{{Keyspace: "ks", Table: "t", Name: "v", Type: cqlspec.ColType{ID: cqlspec.TVarchar}}}}
@@ -263,6 +284,11 @@ func runLife(e *Env) {
 				}})
 			}
 			acts = append(acts, kernel.Action{Key: "cut-handshake", Rank: 6, Weight: 1, Do: func() { cutNext++ }})
+			if authMode == 2 {
+				acts = append(acts, kernel.Action{Key: "auth-provider-fails", Rank: 6, Weight: 3, Do: func() {
+					atomic.StoreInt32(&authFailNext, int32(1+tp.Next(3)))
+				}})
+			}
 			// a connection that fails in the middle of a response: the header (and part of the
 			// body) of a held answer arrives, then the connection is reset or ends
 			offered := map[*node.SConn]bool{}
@@ -343,6 +369,7 @@ func runLife(e *Env) {
 	// ---- settle: faults stop, everything reachable again ----
 	k.BeginSettle()
 	cutNext = 0
+	atomic.StoreInt32(&authFailNext, 0)
 	cl.Net.ClearDialOnce()
 	for _, h := range cl.Hosts {
 		cl.Net.SetDialMode(h.Addr, simnet.DialAccept)
